@@ -6,3 +6,7 @@ import DateutilVerif.Properties.C17
 #print axioms C17.ical_eq_range_cycle
 #print axioms C17.get_semantics
 #print axioms C17.parse_offset_empty
+#print axioms C17.yearly_rule_occ
+#print axioms C17.onsets_of_yearly_rule
+#print axioms C17.ical_eq_tzstr_partial
+#print axioms C17.parse_offset_bad_length
